@@ -217,6 +217,27 @@ def entry_points(j, version, allow, is_observable_type):
         for m in ("get", "all_versions", "query"):
             eps.append(("FileSystemSource.%s(version=)" % m, fs_read(m)))
 
+        # HISTORY on one directory: the same unchanged file read first under ANOTHER version argument (through the same source object, or through another one on the same
+        # directory), then under this one - the later answer is the one judged
+        def fs_reread(method, v0, same_object):
+            def f():
+                d = sc.fresh()
+                write_raw(d, j)
+                src = FileSystemSource(d, **kw)
+                call = lambda s, v: s.get(id_, version=v) if method == "get" else s.all_versions(id_, version=v) if method == "all_versions" else s.query([], version=v)
+                for warm in ((lambda: call(src, v0)), (lambda: src.query([], version=v0))):
+                    try:
+                        warm()
+                    except Exception:
+                        pass
+                return call(src if same_object else FileSystemSource(d, **kw), version)
+            return f
+        for v0 in (None, "2.0", "2.1"):
+            if v0 != version:
+                for m in ("get", "all_versions", "query"):
+                    for same in (True, False):
+                        eps.append(("FileSystemSource.%s(version=)[after-%s-read-it-with-version=%s]" % (m, "the-same-source" if same else "another-source", v0), fs_reread(m, v0, same)))
+
         if "modified" in j:
             # the older on-disk layout (<type>/<id>.json for a versioned object) next to a sibling kept in the current layout
             def fs_legacy(method):
